@@ -97,6 +97,10 @@ theorem C12_tree_tables :
 re-create them (or nothing may be written on them). -/
 theorem C12_phase_tables : (phaseMutable.isEmpty || phasesRecreatedByReset) = true := by decide +kernel
 
+/-- TableOK (HTMLSerializer): every attribute its methods write outside `__init__` is definitely re-assigned by
+`serialize()` before the first token, so `C12_history` applies to reused serializers too (aborted calls included). -/
+theorem C12_serializer_tables : (serializerMutable.all fun f => serializerEstablished.elem f) = true := by decide +kernel
+
 /-- TableOK (shared entity trie): the lookups the tokenizer performs write nothing on the process-wide trie object. -/
 theorem C12_trie_readonly : trieLookupWrites = [] := by decide +kernel
 
